@@ -133,6 +133,23 @@ func (g *gen) write() {
 	switch t {
 	case "k":
 		switch x := g.r.Intn(100); {
+		case x < 4:
+			opts := [][]string{{"ex", "10"}, {"nx"}, {"xx"}, {"ex", "2", "nx"}, {"xx", "ex", "3600"}, {"EX", "5"}, {"nx", "xx"}, {"ex", "0"}}[g.r.Intn(8)]
+			for i, o := range opts {
+				if (o == "ex" || o == "EX") && i+1 < len(opts) {
+					g.trackExpire("k", key, ts, opts[i+1])
+				}
+			}
+			name, args = "set", append([]string{key, g.pick(vals)}, opts...)
+		case x < 7:
+			if g.r.Intn(2) == 0 {
+				name, args = "setifeq", []string{key, g.pick(vals), g.pick(vals)}
+			} else {
+				g.trackExpire("k", key, ts, "10")
+				name, args = "setifeq", []string{key, g.pick(vals), g.pick(vals), "ex", "10"}
+			}
+		case x < 9:
+			name, args = "delifeq", []string{key, g.pick(vals)}
 		case x < 12:
 			name, args = "set", []string{key, g.pick(vals)}
 		case x < 30:
@@ -225,8 +242,10 @@ func (g *gen) write() {
 					name = "zadd"
 				case y < 60:
 					name, args = "zincrby", []string{key, strconv.Itoa(g.r.Intn(7) - 3), g.pick(fields)}
-				case y < 85:
+				case y < 78:
 					name, args = "zrem", append([]string{key}, g.some(fields, 3)...)
+				case y < 88:
+					name, args = "zremrangebyrank", []string{key, strconv.Itoa(g.r.Intn(7) - 3), strconv.Itoa(g.r.Intn(7) - 3)}
 				default:
 					lo := g.r.Intn(7) - 3
 					name, args = "zremrangebyscore", []string{key, strconv.Itoa(lo), strconv.Itoa(lo + g.r.Intn(4))}
@@ -239,10 +258,14 @@ func (g *gen) write() {
 						name = "rpush"
 					}
 					args = append([]string{key}, g.some(vals, 3)...)
-				case y < 80:
+				case y < 72:
 					name, args = "lpop", []string{key}
-				default:
+				case y < 84:
 					name, args = "rpop", []string{key}
+				case y < 92:
+					name, args = "ltrim", []string{key, strconv.Itoa(g.r.Intn(7) - 3), strconv.Itoa(g.r.Intn(7) - 3)}
+				default:
+					name, args = "lset", []string{key, strconv.Itoa(g.r.Intn(7) - 3), g.pick(vals)}
 				}
 			}
 		}
@@ -353,6 +376,13 @@ func (g *gen) grid(engines []string) {
 			rmw{"h", "hset", []string{"t:a", "m1", v}}, rmw{"h", "hsetnx", []string{"t:a", "f", v}},
 			rmw{"l", "lpush", []string{"t:a", v}}, rmw{"l", "rpush", []string{"t:a", v}})
 	}
+	cmds = append(cmds, rmw{"k", "set", []string{"t:a", "x", "nx"}}, rmw{"k", "set", []string{"t:a", "x", "xx"}},
+		rmw{"k", "set", []string{"t:a", "x", "ex", "10"}}, rmw{"k", "setifeq", []string{"t:a", "12", "x"}},
+		rmw{"k", "setifeq", []string{"t:a", "", "x"}}, rmw{"k", "setifeq", []string{"t:a", "zz", "x", "ex", "10"}},
+		rmw{"k", "delifeq", []string{"t:a", "12"}}, rmw{"k", "delifeq", []string{"t:a", "zz"}},
+		rmw{"l", "ltrim", []string{"t:a", "0", "0"}}, rmw{"l", "ltrim", []string{"t:a", "5", "9"}}, rmw{"l", "lset", []string{"t:a", "0", "z"}},
+		rmw{"l", "lset", []string{"t:a", "-1", "z"}}, rmw{"z", "zremrangebyrank", []string{"t:a", "0", "0"}},
+		rmw{"z", "zremrangebyrank", []string{"t:a", "0", "-1"}}, rmw{"z", "zremrangebyrank", []string{"t:a", "-1", "5"}})
 	cmds = append(cmds, rmw{"k", "incr", []string{"t:a"}}, rmw{"k", "incrby", []string{"t:a", "5"}}, rmw{"k", "del", []string{"t:a"}},
 		rmw{"k", "expire", []string{"t:a", "10"}}, rmw{"k", "persist", []string{"t:a"}}, rmw{"k", "mset", []string{"t:a", "", "t:b", "x"}},
 		rmw{"h", "hmset", []string{"t:a", "m1", "", "f", "x"}}, rmw{"h", "hdel", []string{"t:a", "f", "m1"}}, rmw{"h", "hincrby", []string{"t:a", "f", "5"}},
